@@ -1,4 +1,5 @@
 import Orx.Basic
+import Orx.KSFault
 /-! # C15 No leaks: consumed collections and internal buffers are released
 
 Allocation ledger of the consuming kinds, written from the (fixed) source: which heap blocks a life-cycle
@@ -26,9 +27,10 @@ theorem net_append (role : Nat) (a b : List AEv) : net role (a ++ b) = net role 
 def splitAlloc (len at_ : Nat) : List AEv := if at_ < len then [.alloc 1] else []
 def splitFree (len at_ : Nat) : List AEv := if at_ < len then [.free 1] else []
 
-/-- `impl Drop for ConIterOfVec` (vec.rs): split off `[cur, len)`, drop it, then free the buffer -/
-def vecDrop (len cur : Nat) : List AEv :=
-  (if cur ≤ len then splitAlloc len cur ++ splitFree len cur else []) ++ [.free 0]
+/-- `impl Drop for ConIterOfVec` (vec.rs, after fix 6a65933): the vector is taken back, the elements `[min cur len, len)`
+are destroyed in place (no allocation), and the buffer is freed when the local vector goes out of scope — on the
+normal path and on the unwinding path of a panicking element destructor alike (`unwinding` does not matter) -/
+def vecDrop (_len _cur : Nat) (_unwinding : Bool := false) : List AEv := [.free 0]
 
 /-- `into_seq_iter` of `ConIterOfVec`: split, then `Drop` of `self` (its vector now has length `min cur len`),
 later the caller drops the returned `IntoIter` -/
@@ -36,15 +38,22 @@ def vecIntoSeq (len cur : Nat) : List AEv :=
   splitAlloc len (min cur len) ++ vecDrop (min cur len) cur ++ splitFree len (min cur len)
 
 /-- **vec, every length, every progress point (also overshot counters)**: the buffer and the split-off part are released -/
-theorem vec_drop_balanced (len cur role : Nat) : net role ([.alloc 0] ++ vecDrop len cur) = 0 := by
-  unfold vecDrop splitAlloc splitFree
-  by_cases h1 : cur ≤ len <;> by_cases h2 : cur < len <;> by_cases h3 : role = 0 <;> by_cases h4 : role = 1 <;>
-    simp [net, h1, h2, h3, h4] <;> omega
+theorem vec_drop_balanced (len cur role : Nat) (unwinding : Bool) :
+    net role ([.alloc 0] ++ vecDrop len cur unwinding) = 0 := by
+  unfold vecDrop
+  by_cases h3 : role = 0 <;> simp [net, h3]
+
+/-- the defect repaired by 6a65933, as a ledger: the old `Drop` released the buffer *after* destroying the split-off
+remainder, so the unwinding path of a panicking element destructor skipped the release -/
+def vecDropOld (len cur : Nat) (unwinding : Bool) : List AEv :=
+  (if cur ≤ len then splitAlloc len cur ++ splitFree len cur else []) ++ (if unwinding then [] else [.free 0])
+
+theorem C15_fixed_witness_drop_panic_leaked_buffer : net 0 ([.alloc 0] ++ vecDropOld 6 1 true) = 1 := by decide
 
 theorem vec_into_seq_balanced (len cur role : Nat) : net role ([.alloc 0] ++ vecIntoSeq len cur) = 0 := by
   unfold vecIntoSeq vecDrop splitAlloc splitFree
-  by_cases h1 : cur ≤ len <;> by_cases h2 : cur < len <;> by_cases h3 : role = 0 <;> by_cases h4 : role = 1 <;>
-    simp [net, net_append, h1, h2, h3, h4, Nat.min_def] <;> (try split) <;> simp_all [net] <;> omega
+  by_cases h2 : min cur len < len <;> by_cases h3 : role = 0 <;> by_cases h4 : role = 1 <;>
+    simp [net, net_append, h2, h3, h4] <;> omega
 
 /-- array: `split_off_right` collects the remainder into a Vec, which `Drop` drops at once / the caller drops later -/
 def arrayEnd (len cur : Nat) : List AEv := if cur ≤ len then splitAlloc len cur ++ splitFree len cur else []
@@ -60,6 +69,17 @@ def bufferLife (pulls : Nat) : List AEv := [.alloc 3] ++ List.replicate pulls (.
 
 theorem fetchN_balanced (k role : Nat) : net role (fetchN k) = 0 := by
   unfold fetchN; split <;> by_cases h : role = 2 <;> simp [net, h]
+
+/-- **No element is leaked (vec, array), also when a destructor panics.** For every consuming known-size source, all
+programs, every schedule, either ending, and any destruction chosen to panic: every element below `len` ends up
+moved out to a caller or destroyed by the machinery — none is forgotten (and with it whatever it owns). -/
+theorem no_element_leaked (s : KSrc) (hown : s.owning = true) (progs : Nat → List SOp)
+    (hp : ∀ t, ∀ o ∈ progs t, KS.OwnProg o) (σ : List Nat) (op : OwnerOp) (p : Nat) (hp' : p < s.len)
+    (hw : KS.NoWrap s.len (KS.atomsOf (KS.runF s σ (KS.init s progs)).hist 0) 0) :
+    p ∈ (KS.ownerF s (KS.runF s σ (KS.init s progs)) op).1.mv ++ (KS.ownerF s (KS.runF s σ (KS.init s progs)) op).1.dr := by
+  have := KS.exactly_once_all_schedules_F s hown progs hp σ op p hw
+  simp only [hp', ↓reduceIte] at this
+  exact List.count_pos_iff.mp (by omega)
 
 /-- repeating create / consume / drop does not grow memory: any concatenation of balanced life-cycles is balanced -/
 theorem repeat_balanced (role : Nat) (cycles : List (List AEv)) (h : ∀ c ∈ cycles, net role c = 0) :
